@@ -24,8 +24,10 @@ PROG_SYMS = ['A', 'B', 'C', 'X', 'Z', 'W', 'P', 'Q']
 LEAVES = ['THETA(1)', 'THETA(2)', 'THETA(3)', 'ETA(1)', 'ETA(2)', 'WGT', 'APGR', 'TIME']
 ALIAS = {'THETA_1': 'THETA(1)', 'THETA_2': 'THETA(2)', 'THETA_3': 'THETA(3)', 'ETA_1': 'ETA(1)',
          'ETA_2': 'ETA(2)', 'EPS_1': 'EPS(1)'}
-VALUES = [F(1), F(2), F(4), F(1, 2), F(-1), F(-2), F(3), F(8), F(0), F(5, 2)]
-IMPORTS = 'Base.PyData Base.Expr Base.Interp Base.Stmts C01.Model C01.Check'
+# no zero: sympy merges branches with equal values into one condition `c1 | c2`, and Base/Expr.v evaluates Or/And
+# strictly, so a division by a zero leaf inside an unreached condition would make the merged condition undefined
+VALUES = [F(1), F(2), F(4), F(1, 2), F(-1), F(-2), F(3), F(8), F(-3), F(5, 2)]
+IMPORTS = 'Base.PyData Base.Expr Base.Interp Base.Stmts C01.Model C01.Parser C01.Check'
 
 TAGS = {
     1: 'model.statements differs from the model of _parse_tree (translate)',
@@ -40,10 +42,12 @@ GUARDS = (201, 202, 203, 204)
 # reference meaning of the intrinsic functions: name -> (arity, Interp id) ; synonyms as in the grammar
 FN1 = {'EXP': 1, 'DEXP': 1, 'LOG': 2, 'ALOG': 2, 'DLOG': 2, 'SQRT': 3, 'DSQRT': 3, 'ABS': 4, 'DABS': 4,
        'INT': 15, 'DINT': 15, 'SIN': 9, 'DSIN': 9, 'COS': 10, 'DCOS': 10, 'TAN': 11, 'ASIN': 12, 'ATAN': 14}
-# PNP/PZR are modelled in ref_expr but not generated: their constant SMALLZ = 2.8E-103 is absorbed by sympy's
-# floating-point folding of `literal + SMALLZ` at read time (as NONMEM's double precision would)
-PROTECTED = ['PEXP', 'PSQRT', 'PNG', 'PHE']
-SMALLZ = '(28#' + '1' + '0' * 104 + ')%Q'     # 2.8E-103 exactly
+PROTECTED = ['PEXP', 'PSQRT', 'PNG', 'PHE', 'PLOG', 'PLOG10']     # expanded by funcs.py into a clamping Piecewise
+# (PNP/PZR/PDZ are modelled too but not generated: their constant SMALLZ = 2.8E-103 is absorbed by sympy's float folding)
+PROT_ID = {'PEXP': 31, 'PLOG': 32, 'LOG10': 33, 'DLOG10': 33, 'ALOG10': 33, 'PLOG10': 34, 'PSQRT': 35, 'PNG': 36,
+           'PHE': 37, 'PNP': 38, 'PZR': 39, 'PDZ': 40}
+LOG10S = ['LOG10', 'DLOG10', 'ALOG10']
+FN_ID = dict(FN1, MOD=20, DMOD=20, **PROT_ID)
 
 
 class CNames(ct.Names):
@@ -96,20 +100,8 @@ def ref_expr(e, names):
             return f"(Fn1 {FN1[name]}%positive {args[0]})"
         if name in ('MOD', 'DMOD'):
             return f"(Fn2 20%positive {args[0]} {args[1]})"       # Fortran MOD
-        x = args[0]
-        # NONMEM's protected functions (NONMEM guide, "protected functions"; part of the trusted specification)
-        if name == 'PEXP':    # EXP(x) for x <= 100, EXP(100) above
-            return f"(PwCons (CRel OGt {x} (Num (100#1)%Q)) (Fn1 1%positive (Num (100#1)%Q)) (Fn1 1%positive {x}))"
-        if name == 'PSQRT':   # 0 for x < 0
-            return f"(PwCons (CRel OLt {x} (Num (0#1)%Q)) (Num (0#1)%Q) (Fn1 3%positive {x}))"
-        if name == 'PNG':     # 0 for x < 0, x otherwise
-            return f"(PwCons (CRel OLt {x} (Num (0#1)%Q)) (Num (0#1)%Q) {x})"
-        if name == 'PHE':     # 100 for x > 100
-            return f"(PwCons (CRel OGt {x} (Num (100#1)%Q)) (Num (100#1)%Q) {x})"
-        if name == 'PNP':     # SMALLZ for x < SMALLZ
-            return f"(PwCons (CRel OLt {x} (Num {SMALLZ})) (Num {SMALLZ}) {x})"
-        if name == 'PZR':     # SMALLZ for |x| < SMALLZ
-            return f"(PwCons (CRel OLt (Fn1 4%positive {x}) (Num {SMALLZ})) (Num {SMALLZ}) {x})"
+        if name in PROT_ID:       # uninterpreted symbol; the clamp rule is C01/Model.v:template
+            return f"(Fn1 {PROT_ID[name]}%positive {args[0]})"
     raise ValueError(f'bad expr {e}')
 
 
@@ -151,9 +143,10 @@ def ref_stmt(s, names):
 
 
 # ------------------------------------------------------------------ printer (AST -> NM-TRAN text)
-class Printer:
-    """Minimal-parenthesis Fortran printer with layout noise.  Never prints a sign directly in front of a numeric
-    literal that is the base of ** (see finding C01-SIGNED-LITERAL-POWER) unless raw=True."""
+class TokPrinter:
+    """AST -> token list (minimal parentheses by the Fortran precedence rules).  The MEANING of the tokens is decided by
+    the reference parser in Coq (C01/Parser.v), not by this printer.  Never prints a sign directly in front of a numeric
+    literal that is the base of ** (finding C01-SIGNED-LITERAL-POWER) unless raw=True."""
 
     def __init__(self, rng, noise=True, raw=False):
         self.rng = rng
@@ -163,119 +156,164 @@ class Printer:
     def coin(self, p=0.5):
         return self.noise and self.rng.random() < p
 
-    def sp(self):
-        return ' ' if self.coin(0.3) else ''
-
-    def name(self, n):
-        return n.lower() if self.coin(0.15) else n
-
     # precedence: 1 add, 2 mul, 3 sign, 4 pow, 5 atom
     def expr(self, e, ctx=1, right_of_op=False):
         k = e[0]
         if k == 'num':
-            s, p = e[1], 5
+            t, p = [('num', e[1])], 5
         elif k == 'sym':
-            s, p = self.name(e[1]), 5
+            t, p = [('id', e[1])], 5
         elif k == 'fn':
-            s, p = self.name(e[1]) + '(' + ','.join(self.expr(a, 1) for a in e[2:]) + ')', 5
+            t = [('fn', e[1]), 'lp']
+            for i, a in enumerate(e[2:]):
+                if i:
+                    t.append('comma')
+                t += self.expr(a, 1)
+            t.append('rp')
+            p = 5
         elif k == 'neg':
             inner = e[1]
             danger = (inner[0] == 'bin' and inner[1] == '**' and inner[2][0] == 'num') and not self.raw
-            if danger:
-                body = '(' + self.expr(inner, 1) + ')'
-            else:
-                body = self.expr(inner, 4)
-            s, p = '-' + body, 3
+            body = (['lp'] + self.expr(inner, 1) + ['rp']) if danger else self.expr(inner, 4)
+            t, p = ['-'] + body, 3
             if right_of_op:       # never `A*-B`: Fortran wants parentheses
                 p = 0
         elif k == 'bin':
             op = e[1]
             if op in '+-':
-                s = self.expr(e[2], 1) + self.sp() + op + self.cont() + self.sp() + self.expr(e[3], 2, True)
-                p = 1
+                t, p = self.expr(e[2], 1) + [op] + self.expr(e[3], 2, True), 1
             elif op in '*/':
-                s = self.expr(e[2], 2, right_of_op) + self.sp() + op + self.sp() + self.expr(e[3], 4, True)
-                p = 2
+                t, p = self.expr(e[2], 2, right_of_op) + [op] + self.expr(e[3], 4, True), 2
             else:
                 ex = e[3]
                 if ex[0] == 'neg' and self.coin(0.5) and not (ex[1][0] == 'bin'):
                     exs = self.expr(ex, 3)        # A**-2
                 else:
                     exs = self.expr(ex, 4, True)  # right associative
-                s = self.expr(e[2], 5) + '**' + exs
-                p = 4
+                t, p = self.expr(e[2], 5) + ['**'] + exs, 4
         else:
             raise ValueError(e)
         if p < ctx or (p == 5 and k != 'num' and self.coin(0.05)):
-            s = '(' + s + ')'
-        return s
+            t = ['lp'] + t + ['rp']
+        return t
 
-    def cont(self):
-        return ' &\n   ' if self.coin(0.04) else ''
-
-    REL = {'lt': ('.LT.', '<'), 'le': ('.LE.', '<='), 'gt': ('.GT.', '>'), 'ge': ('.GE.', '>='),
-           'eq': ('.EQ.', '=='), 'ne': ('.NE.', '/=')}
-
-    def cond(self, c, ctx=1):
+    def cond(self, c):
         k = c[0]
         if k == 'rel':
-            a, b = self.REL[c[1]]
-            op = b if self.coin(0.35) else a     # (lower-case .ge. after a digit is refused by the reader)
-            return self.expr(c[2], 1) + self.sp() + op + self.sp() + self.expr(c[3], 1)
+            return self.expr(c[2], 1) + [('rel', c[1])] + self.expr(c[3], 1)
         if k == 'not':
             assert c[1][0] == 'rel'
-            return '.NOT.' + self.sp() + self.cond(c[1])
+            return ['not'] + self.cond(c[1])
         if k == 'and':
             assert c[1][0] != 'or' and c[2][0] not in ('or', 'and')
-            return self.cond(c[1]) + self.sp() + '.AND.' + self.sp() + self.cond(c[2])
+            return self.cond(c[1]) + ['and'] + self.cond(c[2])
         if k == 'or':
             assert c[2][0] != 'or'
-            return self.cond(c[1]) + self.sp() + '.OR.' + self.sp() + self.cond(c[2])
+            return self.cond(c[1]) + ['or'] + self.cond(c[2])
         raise ValueError(c)
 
-    def comment(self):
-        return ' ; ' + self.rng.choice(['note', 'IF (X) THEN', 'a = 1', 'ELSE']) if self.coin(0.08) else ''
-
-    def lines(self, stmts, ind):
+    def body(self, stmts):
         out = []
-        pad = ' ' * ind
         for s in stmts:
-            if self.coin(0.05):
-                out.append('')
-            if self.coin(0.04):
-                out.append(pad + '; comment line')
             k = s[0]
             if k == 'asg':
-                eq = ' = ' if self.coin(0.6) else '='
-                out.append(pad + self.name(s[1]) + eq + self.expr(s[2]) + self.comment())
+                out += [('id', s[1]), '='] + self.expr(s[2]) + ['nl']
             elif k == 'if':
-                eq = ' = ' if self.coin(0.6) else '='
-                out.append(pad + self.kw('IF') + ' (' + self.cond(s[1]) + ') ' + self.name(s[2]) + eq + self.expr(s[3])
-                           + self.comment())
+                out += ['if', 'lp'] + self.cond(s[1]) + ['rp', ('id', s[2]), '='] + self.expr(s[3]) + ['nl']
             else:
-                for i, (c, body) in enumerate(s[1]):
-                    if i == 0:
-                        head = self.kw('IF')
-                    else:
-                        head = self.kw('ELSEIF') if self.coin(0.5) else self.kw('ELSE') + ' ' + self.kw('IF')
-                    out.append(pad + head + ' (' + self.cond(c) + ') ' + self.kw('THEN') + self.comment())
-                    out += self.lines(body, ind + (2 if self.noise else 0))
+                for i, (c, b) in enumerate(s[1]):
+                    out += ['if' if i == 0 else 'elseif', 'lp'] + self.cond(c) + ['rp', 'then', 'nl'] + self.body(b)
                 if s[2] is not None:
-                    out.append(pad + self.kw('ELSE'))
-                    out += self.lines(s[2], ind + (2 if self.noise else 0))
-                out.append(pad + (self.kw('ENDIF') if self.coin(0.5) else self.kw('END') + ' ' + self.kw('IF')))
+                    out += ['else', 'nl'] + self.body(s[2])
+                out += ['endif', 'nl']
         return out
 
-    def kw(self, w):
-        return w.lower() if self.coin(0.1) else w
+
+REL_TEXT = {'lt': ('.LT.', '<'), 'le': ('.LE.', '<='), 'gt': ('.GT.', '>'), 'ge': ('.GE.', '>='),
+            'eq': ('.EQ.', '=='), 'ne': ('.NE.', '/=')}
+TOK_TEXT = {'lp': '(', 'rp': ')', 'comma': ',', '+': '+', '-': '-', '*': '*', '/': '/', '**': '**', 'not': '.NOT.',
+            'and': '.AND.', 'or': '.OR.', '=': '='}
+
+
+def render(tokens, rng, noise=True):
+    """tokens -> control-stream text.  One token = one lexeme; only layout is added (blanks, case, continuation
+    lines, comments, blank lines, indentation, the two spellings of relational operators / ELSEIF / ENDIF)."""
+    def coin(p):
+        return noise and rng.random() < p
+    lines, cur, depth, line_start = [], '', 0, True
+    prev = None
+    for t in tokens:
+        if t == 'nl':
+            if coin(0.08):
+                cur += ' ; ' + rng.choice(['note', 'IF (X) THEN', 'a = 1', 'ELSE'])
+            lines.append(cur)
+            if coin(0.05):
+                lines.append('')
+            if coin(0.04):
+                lines.append(' ' * (2 * depth) + '; comment line')
+            cur, line_start, prev = '', True, None
+            continue
+        if t in ('else', 'elseif', 'endif'):
+            depth -= 1
+        if t in ('if', 'then', 'else', 'elseif', 'endif'):
+            txt = {'if': 'IF', 'then': 'THEN', 'else': 'ELSE',
+                   'elseif': 'ELSEIF' if coin(0.5) else 'ELSE IF', 'endif': 'ENDIF' if coin(0.5) else 'END IF'}[t]
+            if coin(0.1):
+                txt = txt.lower()
+        elif isinstance(t, tuple) and t[0] == 'rel':
+            a, b = REL_TEXT[t[1]]
+            txt = b if coin(0.35) else a       # (lower-case .ge. after a digit is refused by the reader)
+        elif isinstance(t, tuple):
+            txt = t[1].lower() if (t[0] in ('id', 'fn') and coin(0.15)) else t[1]
+        else:
+            txt = TOK_TEXT[t]
+        if line_start:
+            cur = (' ' * (2 * depth) if noise else '') + txt
+            line_start = False
+        else:
+            need_blank = (prev in ('if', 'then', 'else', 'elseif') or t == 'then'
+                          or (prev == 'rp' and isinstance(t, tuple) and t[0] == 'id'))
+            glue = ' ' if (need_blank or coin(0.3)) else ''
+            if coin(0.012) and prev not in ('if', 'elseif') and t != 'then':
+                glue = ' &\n    '
+            cur += glue + txt
+        if t in ('then', 'else'):
+            depth += 1
+        prev = t
+    if cur:
+        lines.append(cur)
+    return '\n'.join(lines)
+
+
+def tok_term(tokens, names):
+    out = []
+    for t in tokens:
+        if isinstance(t, tuple):
+            if t[0] == 'num':
+                out.append(f"TNum {ct.q(num_q(t[1]))}")
+            elif t[0] == 'id':
+                out.append(f"TId {names.p(t[1])}")
+            elif t[0] == 'fn':
+                out.append(f"TFn {FN_ID[t[1]]}%positive")
+            else:
+                out.append(f"TRel {RELOP[t[1]]}")
+        else:
+            out.append({'lp': 'TLp', 'rp': 'TRp', 'comma': 'TComma', '+': 'TPlus', '-': 'TMinus', '*': 'TStar', '/': 'TSlash',
+                        '**': 'TPow', 'not': 'TNot', 'and': 'TAnd', 'or': 'TOr', '=': 'TAssign', 'if': 'TIf', 'then': 'TThen',
+                        'else': 'TElse', 'elseif': 'TElseIf', 'endif': 'TEndIf', 'nl': 'TNl'}[t])
+    return ct.lst(out)
+
+
+def print_tokens(spec):
+    rng = random.Random(f"layout-{spec.get('layout', 0)}")
+    return TokPrinter(rng, noise=spec.get('noise', True), raw=spec.get('raw', False)).body(spec['prog'])
 
 
 def print_code(spec):
     if spec.get('code') is not None:
         return spec['code']
-    rng = random.Random(f"layout-{spec.get('layout', 0)}")
-    pr = Printer(rng, noise=spec.get('noise', True), raw=spec.get('raw', False))
-    return '\n'.join(pr.lines(spec['prog'], 0))
+    rng = random.Random(f"render-{spec.get('layout', 0)}")
+    return render(print_tokens(spec), rng, noise=spec.get('noise', True))
 
 
 def control_stream(code):
@@ -340,9 +378,10 @@ class Gen:
             return self.atom(syms)
         r = rng.random()
         if r < 0.03:
-            return ['fn', rng.choice(['MOD', 'MOD', 'DMOD']), self.rat(syms, 1), ['num', rng.choice(['2', '3'])]]
+            # the divisor is a power of two: MOD(x, y) is read as x - y*INT(x/y) and x/3 with a float literal in x is rounded
+            return ['fn', rng.choice(['MOD', 'MOD', 'DMOD']), self.rat(syms, 1), ['num', rng.choice(['2', '4'])]]
         if r < 0.22:
-            name = rng.choice(list(FN1) + PROTECTED)
+            name = rng.choice(list(FN1) + PROTECTED + LOG10S[:2])
             # protected functions expand to a Piecewise which sympy folds into the enclosing Piecewise with a
             # conjunction of conditions; evaluation of conjunctions is strict in Base/Expr.v, so their arguments
             # are kept always-defined (leaves only)
@@ -562,13 +601,17 @@ def observe(spec, prng, mutate=None):
         impl.append(f"(Assign {names.p(str(sc.to_sympy(st.symbol)))} {sc.expr(st.expression, names)})")
     if mutate:
         impl = mutate(impl)
-    body = ref_body(spec['prog'], names)
+    if spec.get('code') is None:
+        # the program is what the REFERENCE PARSER (C01/Parser.v) makes of the printed tokens
+        prog_fields = "true " + tok_term(print_tokens(spec), names) + " BNil"
+    else:
+        prog_fields = "false [] " + ref_body(spec['prog'], names)
     pts = gen_points(prng)
     if spec.get('points'):
         pts = [{k: F(v) for k, v in p.items()} for p in spec['points']] + pts[:2]
         pts = [dict({n: F(1) for n in LEAVES + ['EPS(1)']}, **p) for p in pts]
     envs = ct.lst([sc.env(p, names) for p in pts])
-    term = "(mkCase " + body + "\n  " + ct.lst(impl) + "\n  " + envs + ")"
+    term = "(mkCase " + prog_fields + "\n  " + ct.lst(impl) + "\n  " + envs + ")"
     info = {'code': code, 'n': count_stmts(spec['prog']), 'depth': depth_of(spec['prog']), 'nimpl': len(impl),
             'points': [{k: str(v) for k, v in p.items()} for p in pts]}
     return term, info
@@ -604,6 +647,9 @@ def classify(ctx, spec, tags, info):
     corr = sorted(t for t in tags if t in (1, 2))
     false_guards = [g for g in GUARDS if g in tags]
     status = 'ok'
+    if 1091 in tags:
+        ctx.broken.append('the reference parser (C01/Parser.v) refuses the tokens printed for ' + json.dumps(info['code']))
+        return 'broken'
     if 21 in tags:
         ctx.broken.append('C01/Check.v internal inconsistency (tag 21) on ' + json.dumps(spec['prog']))
         return 'broken'
@@ -660,7 +706,7 @@ def run_code(ctx):
     reg = sorted((VERIF / 'regress' / 'C01').glob('code-*.json'))
     specs = [json.loads(p.read_text()) for p in reg]
     nreg = len(specs)
-    n = 320 if ctx.tier == 'quick' else 2000
+    n = 260 if ctx.tier == 'quick' else 1500
     g = Gen(ctx.rng)
     if ctx.tier != 'quick':
         exh = list(exhaustive_blocks())
@@ -1579,7 +1625,7 @@ FINDING_KINDS['oform'] = probe_oform
 
 
 def run_oforms(ctx):
-    n = 200 if ctx.tier == 'quick' else 2000
+    n = 200 if ctx.tier == 'quick' else 1500
     specs = [json.loads(p.read_text()) for p in sorted((VERIF / 'regress' / 'C01').glob('oform-*.json'))]
     specs += [gen_oform_spec(ctx.rng) for _ in range(n)]
     owner, verdicts, texts, refused = run_oform_specs(ctx, specs, 'oforms')
@@ -1620,6 +1666,135 @@ def run_oforms(ctx):
     cov['samples'] += [{'control_stream': texts[0], 'tags': verdicts[0]}] if texts else []
 
 
+# ====================================================================================================
+# $DES: linear systems with symbol-only coefficients -> to_compartmental_system -> eqs
+# ====================================================================================================
+DES_TAGS = {91: 'an equation of the compartmental system rebuilt from $DES evaluates differently from the DADT(i) written',
+            92: 'an equation of the $DES system is missing in the compartmental system'}
+DES_NAMES = ['DEPOT', 'CENTRAL', 'PERI', 'EFFECT']
+
+
+def gen_des_spec(rng):
+    n = rng.choice([1, 2, 2, 3, 3, 4])
+    flows = []
+    pairs = [(i, j) for i in range(1, n + 1) for j in range(0, n + 1) if i != j]
+    rng.shuffle(pairs)
+    for (i, j) in pairs[:rng.randrange(1, min(len(pairs), 2 * n) + 1)]:
+        flows.append([i, j])
+    if not any(j == 0 for _, j in flows):
+        flows.append([rng.randrange(1, n + 1), 0])
+    flows = [list(x) for x in sorted({tuple(f) for f in flows})]
+    return {'n': n, 'flows': flows, 'order': rng.randrange(10 ** 6), 'factor_first': rng.random() < 0.5}
+
+
+def des_terms(spec):
+    """per compartment i: list of (sign, rate name, amount index)"""
+    rng = random.Random(f"des-{spec['order']}")
+    terms = {i: [] for i in range(1, spec['n'] + 1)}
+    for i, j in spec['flows']:
+        k = f'K{i}{j}'
+        terms[i].append(('-', k, i))
+        if j != 0:
+            terms[j].append(('+', k, i))
+    for i in terms:
+        rng.shuffle(terms[i])
+    return terms
+
+
+def des_text_tokens(spec):
+    terms = des_terms(spec)
+    n = spec['n']
+    names = DES_NAMES[:n]
+    rates = sorted({f'K{i}{j}' for i, j in spec['flows']})
+    lines, toks = [], []
+    for i in range(1, n + 1):
+        parts, tk = [], [('id', f'D{i}'), '=']
+        for k, (sg, r, a) in enumerate(terms[i]):
+            fac = f'{r}*A({a})' if spec['factor_first'] else f'A({a})*{r}'
+            parts.append(('-' if sg == '-' else ('+' if k else '')) + fac)
+            if sg == '-' or k:
+                tk.append(sg)
+            pair = [('id', r), '*', ('id', f'A_{names[a - 1]}(t)')]
+            tk += pair if spec['factor_first'] else pair[::-1]
+        if not terms[i]:
+            parts, tk = ['0'], tk + [('num', '0')]
+        lines.append(f'DADT({i}) = ' + ' '.join(parts))
+        toks += tk + ['nl']
+    model = ' '.join(f"COMP=({nm}{' DEFDOSE' if k == 0 else ''}{' DEFOBS' if nm == 'CENTRAL' or (n == 1) else ''})" for k, nm in enumerate(names))
+    pk = '\n'.join(f'{r} = THETA({k + 1})' for k, r in enumerate(rates))
+    txt = ("$PROBLEM des\n$INPUT ID TIME AMT DV\n$DATA c01.csv IGNORE=@\n$SUBROUTINE ADVAN6 TOL=5\n$MODEL " + model + "\n$PK\n" + pk
+           + "\n$DES\n" + '\n'.join(lines) + "\n$ERROR\nY = F + EPS(1)\n" + ''.join(f'$THETA {k + 1}\n' for k in range(len(rates)))
+           + "$OMEGA 0.1\n$SIGMA 1\n")
+    return txt, toks, rates, names
+
+
+def observe_des(spec, prng, mutate=None):
+    from pharmpy.modeling import read_model_from_string
+    txt, toks, rates, cnames = des_text_tokens(spec)
+    model = read_model_from_string(txt)
+    cs = model.statements.ode_system
+    names = ct.Names()
+    cmap = model.internals.compartment_map
+    eqs = []
+    for eq in cs.eqs:
+        lhs = sc.to_sympy(eq.lhs)
+        cname = str(lhs.args[0].func)[2:]        # Derivative(A_NAME(t), t)
+        eqs.append(ct.pair(names.p(f'D{cmap[cname]}'), sc.expr(eq.rhs, names)))
+    if mutate:
+        eqs = mutate(eqs)
+    leaves = rates + [f'A_{c}(t)' for c in cnames] + ['t']
+    pts = [{nm: prng.choice([F(1), F(2), F(3), F(5), F(7), F(1, 2), F(4), F(3, 2), F(11)]) for nm in leaves} for _ in range(4)]
+    term = f"(mkDCase {tok_term(toks, names)}\n  {ct.lst(eqs)}\n  {ct.lst([sc.env(p, names) for p in pts])})"
+    return term, txt
+
+
+def run_des(ctx, mutate=None):
+    n = 60 if ctx.tier == 'quick' else 400
+    specs = [gen_des_spec(ctx.rng) for _ in range(n)]
+    prng = random.Random(f'{ctx.seed}-des-pts')
+    terms, kept, texts = [], [], []
+    for spec in specs:
+        try:
+            t, txt = observe_des(spec, prng, mutate)
+        except sc.Unconvertible:
+            ctx.coverage['skipped_unconvertible'] = ctx.coverage.get('skipped_unconvertible', 0) + 1
+            continue
+        except Exception as e:
+            ctx.violation('a linear $DES system is refused by the reader', {'kind': 'des', 'spec': spec,
+                          'control_stream': des_text_tokens(spec)[0], 'error': f'{type(e).__name__}: {str(e)[:150]}'})
+            continue
+        terms.append(t)
+        kept.append(spec)
+        texts.append(txt)
+    verdicts = ctx.run_cases('des', IMPORTS, 'dcase', terms, 'verdict_des', shard=100) if terms else []
+    bad = 0
+    for spec, v, txt in zip(kept, verdicts, texts):
+        if 1091 in v:
+            ctx.broken.append('the reference parser refuses the $DES tokens of ' + json.dumps(spec))
+        for t in sorted(set(v)):
+            if t in DES_TAGS:
+                bad += 1
+                ctx.violation(DES_TAGS[t], {'kind': 'des', 'spec': spec, 'control_stream': txt, 'tags': v})
+    cov = ctx.coverage
+    cov['des_cases'] = len(kept)
+    cov['des_bad'] = bad
+    cov['evaluations'] += sum(s['n'] for s in kept) * 4
+    cov['distinct_nontrivial'] += len(set(texts))
+    cov.setdefault('input_distribution', {})['des'] = {
+        'compartments': {str(k): sum(1 for s in kept if s['n'] == k) for k in (1, 2, 3, 4)},
+        'flows_hist': {str(k): sum(1 for s in kept if len(s['flows']) == k) for k in sorted({len(s['flows']) for s in kept})}}
+
+
+def probe_des(ctx, w, label):
+    prng = random.Random('des-replay')
+    t, txt = observe_des(w, prng)
+    v = ctx.run_cases(label, IMPORTS, 'dcase', [t], 'verdict_des')
+    return set(v[0])
+
+
+FINDING_KINDS['des'] = probe_des
+
+
 def run(ctx):
     # entries staged in known_findings.d replace those of known_findings.json with the same id
     ctx.findings = list({f['id']: f for f in ctx.findings}.values())
@@ -1650,6 +1825,7 @@ def run(ctx):
     run_rates(ctx)
     run_params(ctx)
     run_oforms(ctx)
+    run_des(ctx)
     ctx.coverage['rule'] = ('abbreviated code: random programs (<= 14 statements, nesting <= 2, 8 program symbols, '
                             'THETA/ETA/data leaves, intrinsic + protected functions, layout noise) from VERIF_SEED; '
                             'non-trivial = at least 3 statements; distinct by printed text')
@@ -1677,6 +1853,6 @@ def replay(ctx, rep):
     tags = FINDING_KINDS[kind](ctx, rep.get('spec', rep), 'replay')
     if kind == 'stream' and 241 in tags and ctx.open_finding(TRANS56):
         tags = tags - {41}
-    allt = {**TAGS, **ADV_TAGS, **PARAM_TAGS, **OFORM_TAGS}
+    allt = {**TAGS, **ADV_TAGS, **PARAM_TAGS, **OFORM_TAGS, **DES_TAGS}
     print('tags', sorted(tags), [allt.get(t, t) for t in sorted(tags)])
-    return 1 if any(t in tags for t in (1, 2, 11, 21, 31, 41, 42, 43, 44, 61, 62, 81, 82, 83)) else 0
+    return 1 if any(t in tags for t in (1, 2, 11, 21, 31, 41, 42, 43, 44, 61, 62, 81, 82, 83, 91, 92)) else 0
